@@ -396,11 +396,11 @@ def m4_get_transactions(S):
 FILTERS = ["none", "script_prefix", "script_len_range", "output_data_prefix", "output_data_exact", "output_data_partial", "output_data_len_range", "output_capacity_range", "block_range"]
 
 
-def run_get_cells(S, search_type, which, exact, limit_value, with_data, nrows=2):
+def run_get_cells(S, search_type, which, exact, limit_value, with_data, nrows=2, fname="get_cells"):
     """one scenario of `get_cells`: the searched script kind, ONE filter of `FILTERS` present, exact or prefix mode; `nrows` rows of the live-cell index follow the start key"""
-    f = [x for x in S.prog.funcs if x.kind == "fn" and x.short == "get_cells" and "indexer/src/service.rs" in x.name and "{closure" not in x.name]
+    f = [x for x in S.prog.funcs if x.kind == "fn" and x.short == fname and "indexer/src/service.rs" in x.name and "{closure" not in x.name]
     if len(f) != 1:
-        raise Inconclusive(f"get_cells: {len(f)} candidates")
+        raise Inconclusive(f"{fname}: {len(f)} candidates")
     f = f[0]
     keyv = _enum("util/indexer/src/indexer.rs", "Key")
     stype = _enum(JT, "IndexerScriptType")
@@ -485,13 +485,13 @@ def run_get_cells(S, search_type, which, exact, limit_value, with_data, nrows=2)
         h = deref(ex, a[1]) if isinstance(a[1], RefV) else a[1]
         m = re.fullmatch(r"keybytes\((\w+),row(\d+)_out_point\)", getattr(h, "name", "") or "")
         gets.append((getattr(h, "name", str(h)[:50]), list(ex.pc)))
-        if not m:
-            raise Stop(f"lookup of {str(h)[:60]}")
+        if not m:           # a lookup that is not "the out-point of a row": recorded (the obligation on the lookups fails), answered with an unrelated cell
+            return mk_result(True, mk_option(True, OpaqueV("row0_cell_value[OutPoint]", "DBVector"), "Option<DBVector>"), OpaqueV("dberr", "Error"), d)
         return mk_result(True, mk_option(True, OpaqueV(f"row{m.group(2)}_cell_value[{m.group(1)}]", "DBVector"), "Option<DBVector>"), OpaqueV("dberr", "Error"), d)
 
     def parse_cell_value(ex, c_, a, d):
         v = deref(ex, a[0]) if isinstance(a[0], RefV) else a[0]
-        m = re.fullmatch(r"row(\d+)_cell_value\[OutPoint\]", getattr(v, "name", "") or "")
+        m = re.fullmatch(r"row(\d+)_cell_value\[\w+\]", getattr(v, "name", "") or "")
         if not m:
             raise Stop(f"parse_cell_value of {str(v)[:60]}")
         k = int(m.group(1))
@@ -558,6 +558,38 @@ def run_get_cells(S, search_type, which, exact, limit_value, with_data, nrows=2)
         return AggV((cap[int(m.group(1))],), "Capacity")
     cap_t = lambda ex, v: as_int(deref(ex, v) if isinstance(v, RefV) else v)
     passthru = lambda ex, c_, a, d: (lambda v: OpaqueV(v.name, d) if isinstance(v, OpaqueV) else a[0])(deref(ex, a[0]) if isinstance(a[0], RefV) else a[0])
+    has_tip = ctx.bool("index_has_a_tip_row")
+
+    def iterator(ex, c_, a, d):
+        """first scan: the rows after the start key; second scan (get_cells_capacity): the newest header row"""
+        n = len([e for e in ex.log if e[0] == "c18" and e[1] == "scan"])
+        ex.log.append(("c18", "scan", [n], list(ex.pc)))
+        if n == 0:
+            return E._owned(rows)
+        if ex.decide(has_tip.t):
+            return E._owned([AggV((OpaqueV("tip_key", "Box<[u8]>"), OpaqueV("tip_value", "Box<[u8]>")), "(Box<[u8]>, Box<[u8]>)")])
+        return E._owned([])
+
+    def it_sum(ex, c_, a, d):
+        it = deref(ex, a[0]) if isinstance(a[0], RefV) else a[0]
+        if not E._is_it(it):
+            raise Stop(f"sum over {str(it)[:60]}")
+        tot = 0
+        for x in E._rest(ex, it):
+            tot = T.add(tot, as_int(x))
+        return IntV(tot, "u64")
+
+    def tip_slice(ex, c_, a, d):
+        v = deref(ex, a[0]) if isinstance(a[0], RefV) else a[0]
+        rng = deref(ex, a[1]) if isinstance(a[1], RefV) else a[1]
+        if not str(getattr(v, "name", "")).startswith("tip_key"):
+            raise Stop(f"slice of {str(v)[:60]}")
+        lo, hi = rng.fields[0].t, rng.fields[1].t
+        if (lo, hi) == (9, 41):
+            return ex.ctx.ref_to(OpaqueV("tip_key_hash_bytes", "[u8]"))
+        if (lo, hi) == (1, 9):
+            return ex.ctx.ref_to(OpaqueV("tip_key_number_bytes", "[u8]"))
+        raise Stop(f"unexpected slice of the header key [{lo}..{hi}]")
     ctx.env = list(E.LOGGING_OFF) + [
         (E.rx(r"JsonUint::<u32>::value$"), lambda ex, c_, a, d: IntV(limit_value, "u32")),
         (E.rx(r"Error::invalid_params::<"), lambda ex, c_, a, d: OpaqueV("invalid_params", d)),
@@ -565,18 +597,24 @@ def run_get_cells(S, search_type, which, exact, limit_value, with_data, nrows=2)
         (E.rx(r"IndexerSearchKey as TryInto<FilterOptions>>::try_into$"), lambda ex, c_, a, d: mk_result(True, fo, OpaqueV("ferr", "Error"), d)),
         (E.rx(r"RocksdbStore::inner$"), lambda ex, c_, a, d: ex.ctx.ref_to(OpaqueV("db", "DB"))),
         (E.rx(r"DB::snapshot$"), lambda ex, c_, a, d: OpaqueV("snapshot", d)),
-        (E.rx(r"Snapshot<'_> as .*Iterate>::iterator::<"), lambda ex, c_, a, d: E._owned(rows)),
+        (E.rx(r"Snapshot<'_> as .*Iterate>::iterator::<"), iterator),
         (E.rx(r"<DBIterator<'_> as Iterator>::skip$"), lambda ex, c_, a, d: a[0]),
         (E.rx(r"TimeoutIterator::<.*>::new$"), lambda ex, c_, a, d: a[0]),
         (E.rx(r"TimeoutIterator::<.*>::is_timed_out$"), E.const_bool(False)),
         (E.rx(r"TimeoutIterator<.*> as Iterator>::by_ref$"), lambda ex, c_, a, d: a[0]),
+        (E.rx(r" as Iterator>::sum::<u64>$"), it_sum),
+        (E.rx(r"Capacity::as_u64$"), lambda ex, c_, a, d: IntV(cap_t(ex, a[0]), "u64")),
+        (E.rx(r"<\[u8\] as Index<(std::ops::)?Range<usize>>>::index$"), tip_slice),
+        (E.rx(r"core::num::<impl u64>::from_be_bytes$"), lambda ex, c_, a, d: ctx.int("tip_number", "u64")),
+        (E.rx(r"<(ckb_types::packed::)?Byte32 as Into<H256>>::into$"), passthru),
+        (E.rx(r"<Box<\[u8\]> as AsRef<\[u8\]>>::as_ref$"), lambda ex, c_, a, d: a[0]),
         (E.rx(r"<Vec<u8> as AsRef<\[u8\]>>::as_ref$|<Box<\[u8\]> as Deref>::deref$|<Vec<u8> as Deref>::deref$|Vec::<u8>::as_slice$|<DBVector as Deref>::deref$|<(ckb_types::bytes::)?Bytes as Deref>::deref$"), lambda ex, c_, a, d: a[0]),
         (E.rx(r"slice::<impl \[u8\]>::starts_with$"), starts_with),
         (E.rx(r"slice::<impl \[u8\]>::to_vec$"), lambda ex, c_, a, d: OpaqueV("copy_of_row%d_key" % rowno(ex, a[0]), d)),
         (E.rx(r"<\[u8\] as Index<(std::ops::)?RangeFrom<usize>>>::index$"), index_from),
         (E.rx(r"<&\[u8\] as TryInto<\[u8; \d\]>>::try_into$"), lambda ex, c_, a, d: mk_result(True, OpaqueV(getattr(deref(ex, a[0]), "name", "?"), "[u8; N]"), OpaqueV("tryerr", "TryFromSliceError"), d)),
         (E.rx(r"core::num::<impl u32>::from_be_bytes$"), from_be),
-        (E.rx(r"Byte32 as (ckb_types::prelude::)?Entity>::from_slice$"), lambda ex, c_, a, d: mk_result(True, OpaqueV("row%d_tx_hash" % rowno(ex, a[0]), "Byte32"), OpaqueV("verr", "VerificationError"), d)),
+        (E.rx(r"Byte32 as (ckb_types::prelude::)?Entity>::from_slice$"), lambda ex, c_, a, d: mk_result(True, OpaqueV("tip_hash", "Byte32") if "tip_key_hash_bytes" in str(getattr(deref(ex, a[0]) if isinstance(a[0], RefV) else a[0], "name", "")) else OpaqueV("row%d_tx_hash" % rowno(ex, a[0]), "Byte32"), OpaqueV("verr", "VerificationError"), d)),
         (E.rx(r"<impl (ckb_types::packed::)?OutPoint>::new$"), op_new),
         (E.rx(r"Key::<'_>::into_vec$"), into_vec),
         (E.rx(r"Snapshot<'_> as .*Get<.*>>::get::<"), get),
@@ -600,7 +638,10 @@ def run_get_cells(S, search_type, which, exact, limit_value, with_data, nrows=2)
         (E.rx(r"IndexerPagination::<.*>::new$"), lambda ex, c_, a, d: AggV((a[0], a[1]), "IndexerPagination")),
         (E.rx(r"^format$|must_use::<"), E.opaque_call()),
     ] + list(E.LIST_ADAPTORS)
-    ps = S.run(ctx, f, [ctx.ref_to(handle), sk, EnumV(0, (), "IndexerOrder"), OpaqueV("limit_json", "JsonUint<u32>"), mk_option(False, None, "Option<JsonBytes>")])
+    if fname == "get_cells":
+        ps = S.run(ctx, f, [ctx.ref_to(handle), sk, EnumV(0, (), "IndexerOrder"), OpaqueV("limit_json", "JsonUint<u32>"), mk_option(False, None, "Option<JsonBytes>")])
+    else:
+        ps = S.run(ctx, f, [ctx.ref_to(handle), sk])
     in_range = lambda t: T.and_(T.le(r0.t, t), T.lt(t, r1.t))
     other = "type" if search_type == "Lock" else "lock"
     passes = []
@@ -611,7 +652,7 @@ def run_get_cells(S, search_type, which, exact, limit_value, with_data, nrows=2)
             sp, ln = T.and_(has_type[k].t, sp_type[k].t), T.ite(has_type[k].t, len_type[k].t, 0)
         passes.append({"none": True, "script_prefix": sp, "script_len_range": in_range(ln), "output_data_prefix": data_pre[k].t, "output_data_exact": T.not_(data_ne[k].t),
                        "output_data_partial": data_find[k].t, "output_data_len_range": in_range(data_len[k].t), "output_capacity_range": in_range(cap[k].t), "block_range": in_range(bn[k].t)}[which])
-    return dict(ctx=ctx, ps=ps, gets=gets, qopts=qopts, prefixes=prefixes, used=used, inpre=inpre, oix=oix, bn=bn, txi=txi, passes=passes, nrows=nrows, other=other)
+    return dict(ctx=ctx, ps=ps, gets=gets, qopts=qopts, prefixes=prefixes, used=used, inpre=inpre, oix=oix, bn=bn, txi=txi, passes=passes, nrows=nrows, other=other, cap=cap, has_tip=has_tip)
 
 
 def m5_get_cells(S):
@@ -677,3 +718,60 @@ def m5_get_cells(S):
             S.prove(ctx, ob, f"{tag}_every_answer_item_is_the_cell_of_one_row_with_its_out_point_coordinates_and_data_iff_asked", [], bool(shape))
             S.prove(ctx, ob, f"{tag}_the_answer_is_exactly_the_rows_under_the_prefix_that_pass_the_filter_in_scan_order", pre, T.and_(*goals) if goals else False)
             S.witness(ctx, ob, f"{tag}_reach_second_row_answered", pre, T.and_(inc[1], inc[0]) if limit_value >= 2 else T.and_(inc[1], T.not_(inc[0])))
+
+
+def m6_get_cells_capacity(S):
+    """`IndexerHandle::get_cells_capacity`: the same scan and filters as get_cells (two rows, one filter at a time), the answer is the SUM of the capacities of exactly the passing
+    rows, together with the hash and number decoded from the newest header row; no header row: no answer"""
+    ob = "C18.m6"
+    CC = field_index(JT, "IndexerCellsCapacity")
+    kp = _enum_values("util/indexer/src/indexer.rs", "KeyPrefix")
+    for search_type in ("Lock", "Type"):
+        for which, exact in [(w, True) for w in FILTERS] + [("none", False)]:
+            R = run_get_cells(S, search_type, which, exact, 2, False, fname="get_cells_capacity")
+            ctx, ps = R["ctx"], R["ps"]
+            tag = f"{search_type}_{which}_{'exact' if exact else 'prefix'}"
+            lens = [_sym(ctx, r"len\.row%d_key[\w.]*" % k) for k in range(R["nrows"])]
+            capsum = [T.le(T.add(R["cap"][0].t, R["cap"][1].t), (1 << 64) - 1)]          # the total capacity of live cells fits u64 (issuance bound)
+            if exact:
+                pre = capsum + [T.le(_sym(ctx, r"uf\.len_prefix_\w*"), 1 << 20), T.ge(_sym(ctx, r"uf\.len_prefix_\w*"), 0)]
+            else:
+                pre = capsum + [T.ge(l, 16) for l in lens]
+            S.prove(ctx, ob, f"{tag}_no_panic", pre, T.not_(cond_of(panics(ps))))
+            S.prove(ctx, ob, f"{tag}_the_scan_runs_over_the_cell_index_and_cells_are_loaded_by_the_out_point_of_the_row", [],
+                    bool(R["qopts"] and all(q == (kp["CellLockScript"], kp["CellTypeScript"]) for q in R["qopts"]) and R["prefixes"] and all(re.fullmatch(r"(uf\.deref_)?prefix[_.]*", x) for x in R["prefixes"])
+                         and R["gets"] and all(re.fullmatch(r"keybytes\(OutPoint,row\d+_out_point\)", g) for g, _ in R["gets"])), extra={"note": str((R["qopts"][:1], sorted(R["prefixes"]), [g for g, _ in R["gets"]][:2]))})
+            S.prove(ctx, ob, f"{tag}_script_filters_look_at_the_other_script_of_the_cell", [], bool(all(kind == R["other"] for t_, kind, _, _ in R["used"] if t_ in ("script_prefix", "script_len"))
+                                                                                                 and (which not in ("script_prefix", "script_len_range") or any(t_ in ("script_prefix", "script_len") for t_, *_ in R["used"]))))
+            inc = []
+            for k in range(R["nrows"]):
+                c = [R["inpre"][j].t for j in range(k + 1)]
+                if exact:
+                    c.append(T.eq(lens[k], T.add(_sym(ctx, r"uf\.len_prefix_\w*"), 16)))
+                c.append(R["passes"][k])
+                inc.append(T.and_(*c))
+            want = T.add(T.ite(inc[0], R["cap"][0].t, 0), T.ite(inc[1], R["cap"][1].t, 0))
+            goals, shape, some = [], True, []
+            for p_ in returns(ps):
+                v = p_.value
+                if not (isinstance(v, EnumV) and isinstance(v.disc, int)):
+                    shape = False
+                    continue
+                if v.disc == 1:
+                    continue
+                o = v.payload(0)[0]
+                if not isinstance(o, EnumV):
+                    shape = False
+                    continue
+                if isinstance(o.disc, int) and o.disc == 0:
+                    goals.append(T.implies(p_.cond(), T.not_(R["has_tip"].t)))
+                    continue
+                rec = o.payload(1)[0]
+                if not (isinstance(rec, AggV) and getattr(rec.fields[CC["block_hash"]], "name", None) == "tip_hash" and as_int(rec.fields[CC["block_number"]]) == ctx.int("tip_number", "u64").t):
+                    shape = False
+                    continue
+                some.append(p_.cond())
+                goals.append(T.implies(p_.cond(), T.and_(R["has_tip"].t, T.eq(as_int(rec.fields[CC["capacity"]]), want))))
+            S.prove(ctx, ob, f"{tag}_the_answer_carries_the_hash_and_number_of_the_newest_header_row", [], bool(shape and some))
+            S.prove(ctx, ob, f"{tag}_the_capacity_is_the_sum_over_exactly_the_rows_under_the_prefix_that_pass_the_filter", pre, T.and_(*goals) if goals else False)
+            S.witness(ctx, ob, f"{tag}_reach_both_rows_counted", pre, T.and_(inc[0], inc[1], R["has_tip"].t, T.gt(R["cap"][0].t, 0), T.gt(R["cap"][1].t, 0)))
